@@ -27,9 +27,11 @@ def distinct_ints(rs, lo, hi, n):
     return np.array(sorted(out), dtype=float)
 
 
-def make_xsec_table(rs, nT, nP, nW, wn_lo=300.0, wn_hi=3000.0, logmag=(-40, 0)):
+def make_xsec_table(rs, nT, nP, nW, wn_lo=300.0, wn_hi=3000.0, logmag=(-40, 0),
+                    deep=False):
     T = distinct_ints(rs, 1000, 30000, nT) / 10.0
-    P = 10 ** (distinct_ints(rs, -100, 700, nP) / 100.0)
+    # Pa; 'deep' tables reach 1e10 Pa = 1e5 bar (interiors)
+    P = 10 ** (distinct_ints(rs, -100, 1000 if deep else 700, nP) / 100.0)
     wn = distinct_ints(rs, int(wn_lo * 100), int(wn_hi * 100), nW) / 100.0
     x = 10 ** rs.uniform(logmag[0], logmag[1], size=(nP, nT, nW))
     return {'T': T.tolist(), 'P': P.tolist(), 'wn': wn.tolist(),
@@ -109,7 +111,8 @@ def write_hitran_cia(path, pair, blocks):
         for T, wn, sig in blocks:
             cm5 = [s * 1e10 for s in sig]
             f.write('%20s%10.3f%10.3f%7d%7.1f%10.3E -.999 %s\n'
-                    % (pair, wn[0], wn[-1], len(wn), T, max(cm5), 'verif'))
+                    % (pair, wn[0], wn[-1], len(wn), T,
+                       max(abs(c) for c in cm5), 'verif'))
             for w, s in zip(wn, cm5):
                 f.write('%10.4f %.17e\n' % (w, s))
 
